@@ -24,6 +24,15 @@ the reader / writer drivers).
                            Only for functions whose error convention is `throw` (for str_to_int 0 *is* the error value).
  S4-strto-leading-space-rejected  the strto* call is reached only when isspace(*input) was false (strto* would skip it);
                            str_to_int is exempt (documented: leading white space is ignored).
+ S5-strtoul-minus-rejected  strtoul / strtoull accept a leading '-' and negate in the unsigned type: assuming the input starts with
+                           '-' from the function's entry on (`*p` and `p[0]`), the call is unreachable or no return of the converted
+                           value is reachable after it (an upper bound cannot exclude wrapped values; string_to_ulong's "-1" -> 0
+                           special case returns a constant before the call and is untouched).
+ A2-scale-down-complete    a loop that divides an accumulator by a constant once per step of a counter
+                           (`for (; scale < 0 && result > 0; ++scale) result /= 10`) is left, in every abstract exit state, with the
+                           counter's own condition exhausted or the value == 0; otherwise rounding sees an under-divided value.
+                           (Relative to the loop's own counter condition: a wrong bound in that condition, `scale < -1`, is numeric
+                           and not decided.)
  L1-coordinate-fully-consumed  (clause 2) functions that take the whole string (`const char*` parameter) and call
                            string_to_location_coordinate: assuming the character left at the returned position is not NUL,
                            no normal return is reachable (set_lon / set_lat; the *_partial variants take `const char**`).
@@ -50,19 +59,19 @@ from ..errdisc import SPECIAL, is_extern_c, guards
 
 KNOWN = [
     ('A1-accum-bounded',
-     'osmium::detail::string_to_location_coordinate#(result*=10)@ForStmt[(scale>0)]',
+     'osmium::detail::string_to_location_coordinate#acc1.loop4:x*10',
      'F6: after the exponent has been added, `scale` is only bounded by 8 + 99999, so `for (; scale > 0; --scale) result *= 10` '
      'multiplies without bound (first abstract event: result in [0, 10^18) times 10); signed overflow wraps on the usual targets and '
      'the range test afterwards sees a small number: "1e63" is accepted as 0 (and e.g. "9999999999.99999999e1" overflows) instead of '
      'throwing invalid_location.'),
     ('N1-negation-excludes-minimum',
-     'osmium::io::detail::OutputBlock::output_int#-value',
+     'osmium::io::detail::OutputBlock::output_int#neg1',
      'output_int(int64_t) negates negative values without excluding INT64_MIN (the coordinate formatter and opl_parse_int both '
      'special-case their minimum): `value = -value` overflows, value stays negative, the digit loop runs once with value % 10 == -8 '
      'and the OPL/XML/debug writers emit "-(" for an object id / ref of -9223372036854775808, which opl_parse_int accepts on input; '
      'format -> parse does not return the identical value.'),
     ('C1-narrowing-in-range',
-     'osmium::Timestamp::(ctor)#long->unsignedint:osmium::detail::parse_timestamp(timestamp)',
+     'osmium::Timestamp::(ctor)#long->unsignedint:osmium::detail::parse_timestamp()',
      'Timestamp(const char*) casts the time_t of parse_timestamp to uint32_t without a range test: parse_timestamp accepts every '
      'year 1900..9999, so "2106-02-07T06:28:16Z" (2^32 s) becomes 0 (an invalid Timestamp), "1969-12-31T23:59:59Z" becomes '
      '4294967295 (2106-02-07T06:28:15Z); out-of-range timestamp strings yield a wrong value instead of std::invalid_argument.'),
@@ -178,10 +187,15 @@ def _loop_label(fn, L):
 
 
 def accumulator_updates(fn, it):
-    """[(assign node, decl id, loop, multiplicative?, [arithmetic nodes whose result becomes the new value])] for every
-    self-referencing update `x op= e` / `x = f(x)` of a tracked integer local inside a loop."""
+    """[(assign node, decl id, loop, multiplicative?, [arithmetic nodes whose result becomes the new value], form)] for every
+    self-referencing update `x op= e` / `x = f(x)` of a tracked integer local inside a loop.  form = spelling-independent
+    shape of the update: 'x*10+d', 'x*10', 'x<<4', 'x+d', 'x-d', 'x/10' (dividing updates have an empty node list)."""
     pm = fn.parent_map()
     out = []
+
+    def cst(nid):
+        c = fn.const_value(nid)
+        return str(c) if c is not None else 'k'
     for a in fn.all_nodes():
         if a.get('k') != 'assign':
             continue
@@ -196,13 +210,16 @@ def accumulator_updates(fn, it):
             base = op[:-1]
             if base in ('*', '<<'):
                 mult = fn.const_value(a['rhs']) is not None
-                out.append((a, d, L, mult, [a['id']]))
+                out.append((a, d, L, mult, [a['id']], 'x%s%s' % (base, cst(a['rhs']))))
             elif base in ('+', '-'):
-                out.append((a, d, L, False, [a['id']]))
+                out.append((a, d, L, False, [a['id']], 'x%sd' % base))
+            elif base == '/':
+                out.append((a, d, L, False, [], 'x/%s' % cst(a['rhs'])))
             continue
         spine = []
         mult = False
         selfref = False
+        shape = []
         for x in fn.subtree(a['rhs']):
             m = fn.nodes[x]
             if m.get('k') != 'var' or m.get('d') != d:
@@ -227,13 +244,47 @@ def accumulator_updates(fn, it):
             for (p, child) in path:
                 if p['op'] in ARITH and p['id'] not in spine:
                     spine.append(p['id'])
-                if p['op'] in ('*', '<<'):
-                    other = p['rhs'] if fn.strip(p['lhs']) == fn.strip(child) or p['lhs'] == child else p['lhs']
-                    if fn.const_value(other) is not None:
+                other = p['rhs'] if fn.strip(p['lhs']) == fn.strip(child) or p['lhs'] == child else p['lhs']
+                if p['op'] in ('*', '<<', '/'):
+                    if p['op'] != '/' and fn.const_value(other) is not None:
                         mult = True
-        if selfref and spine:
-            out.append((a, d, L, mult, spine))
+                    piece = '%s%s' % (p['op'], cst(other))
+                else:
+                    piece = '%sd' % p['op']
+                if piece not in shape:
+                    shape.append(piece)
+        if selfref and (spine or shape):
+            divides = any(x.startswith('/') for x in shape) and not mult
+            out.append((a, d, L, mult, [] if divides else spine, 'x' + ''.join(shape)))
     return out
+
+
+def update_roles(fn, ups):
+    """{assign node id: 'acc<i>.loop<j>:<form>[.<n>]'} -- spelling-independent instance names: i = ordinal (declaration order)
+    of the accumulator among the locals that are scaled (multiplied / shifted / divided by a constant) inside some loop,
+    j = ordinal (source order) of the loop among the loops that update that accumulator, form = shape of the update, n only
+    when a loop holds several updates of one shape.  No variable name, statement class or condition text."""
+    decl_off = {}
+    for i, p in enumerate(fn.params):
+        decl_off[p['d']] = -1000 + i
+    for n in fn.all_nodes():
+        if n.get('k') == 'decl':
+            for v in n['vars']:
+                decl_off.setdefault(v['d'], n.get('o', 0))
+    scaled = sorted({d for (_a, d, _L, mult, _s, form) in ups if mult or '/' in form}, key=lambda d: decl_off.get(d, 0))
+    roles = {}
+    for i, d in enumerate(scaled):
+        mine = [u for u in ups if u[1] == d]
+        loops = sorted({u[2]['b'] for u in mine})
+        seen = {}
+        for u in sorted(mine, key=lambda u: u[0].get('o', 0)):
+            j = loops.index(u[2]['b']) + 1
+            base = 'acc%d.loop%d:%s' % (i + 1, j, u[5])
+            seen.setdefault(base, []).append(u[0]['id'])
+        for base, ids in seen.items():
+            for n, aid in enumerate(ids):
+                roles[aid] = base if len(ids) == 1 else '%s.%d' % (base, n + 1)
+    return roles
 
 
 def _fmt_iv(iv):
@@ -249,17 +300,18 @@ def rule_accum(R, fns, cache):
         if not fn.loops:
             continue
         ups = accumulator_updates(fn, cache.shell(fn))
-        accs = {(d, L['b']) for (_a, d, L, mult, _s) in ups if mult}
+        accs = {(d, L['b']) for (_a, d, L, mult, _s, _f) in ups if mult}
         if not accs:
             continue
         it = cache.get(fn, R)
         if it is None:
             continue
-        for (a, d, L, mult, spine) in ups:
-            if (d, L['b']) not in accs:
+        roles = update_roles(fn, ups)
+        for (a, d, L, mult, spine, _form) in ups:
+            if (d, L['b']) not in accs or not spine or a['id'] not in roles:
                 continue
             res = it.res
-            key = _k('%s#%s@%s' % (fn.q, fn.expr(a['id']), _loop_label(fn, L)))
+            key = _k('%s#%s' % (fn.q, roles[a['id']]))
             if a['id'] not in res.reached:
                 continue
             ev = [(x, res.events[x]) for x in spine if x in res.events]
@@ -285,10 +337,11 @@ def rule_neg(R, fns, cache):
         if it is None:
             continue
         res = it.res
+        order = [n['id'] for n in sorted(cands, key=lambda n: n.get('o', 0))]
         for n in cands:
             if n['id'] not in res.reached:
                 continue
-            key = _k('%s#-%s' % (fn.q, fn.expr(n['sub'])))
+            key = '%s#neg%d' % (fn.q, order.index(n['id']) + 1)      # ordinal among the function's non-constant signed negations
             opnd = res.obs.get(n['sub'])
             r = U.type_range(n.get('t'))
             if n['id'] in res.events or opnd is None:
@@ -319,7 +372,7 @@ def _strto_calls(fn):
 def parsed_locals(fn, it, parsers):
     """decl ids of integer locals that hold parsed text: digit accumulators, strto* results, results of scope parsers."""
     out = set()
-    for (_a, d, _L, mult, _s) in accumulator_updates(fn, it):
+    for (_a, d, _L, mult, _s, _f) in accumulator_updates(fn, it):
         if mult:
             out.add(d)
 
@@ -373,7 +426,8 @@ def rule_narrow(R, fns, cache, parsers):
             if not parsed or n['id'] not in res.reached:
                 continue
             src_s = src.replace('const ', '')
-            key = _k('%s#%s->%s:%s' % (fn.q, src_s, n.get('t').replace('const ', ''), fn.expr(o)))
+            what = 'parsed-local' if on.get('k') == 'var' else '%s()' % on.get('q')
+            key = _k('%s#%s->%s:%s' % (fn.q, src_s, n.get('t').replace('const ', ''), what))
             opnd = res.obs.get(n['sub'])
             ok = opnd is not None and U.inside(opnd, rt)
             R.check(ok, 'C1-narrowing-in-range', key, fn.loc(n['id']),
@@ -383,6 +437,23 @@ def rule_narrow(R, fns, cache, parsers):
 
 
 # ------------------------------------------------------------------------------------------------ D1 / T1
+
+def _char_offset(fn, nid):
+    """constant offset of the character read relative to its pointer (`p[5]`, `*(p + 5)` -> 5, `*p`, `**s` -> 0), '?' otherwise"""
+    n = fn.nodes.get(_rv(fn, fn.strip(nid)))
+    if n is None:
+        return '?'
+    if n.get('k') == 'index':
+        c = fn.const_value(n['idx'])
+        return str(c) if c is not None else '?'
+    if n.get('k') == 'unop' and n.get('op') == '*':
+        m = fn.nodes.get(_rv(fn, fn.strip(n['sub'])))
+        if m is not None and m.get('k') == 'binop' and m.get('op') == '+':
+            c = fn.const_value(m['rhs'])
+            return str(c) if c is not None else '?'
+        return '0'
+    return '?'
+
 
 DIGIT_BASE = {48: 9, 97: 5, 65: 5}    # '0' -> 0..9, 'a' / 'A' -> 0..5 (+10)
 
@@ -414,7 +485,7 @@ def rule_digit(R, fns, cache):
                 continue
             v = res.obs.get(n['id'])
             hi = DIGIT_BASE[c]
-            key = _k('%s#%s' % (fn.q, fn.expr(n['id'])))
+            key = '%s#digit-%s@%s' % (fn.q, {48: '0', 97: 'a', 65: 'A'}[c], _char_offset(fn, n['lhs']))
             R.check(v is not None and U.inside(v, (0, hi)), 'D1-digit-validated', key, fn.loc(n['id']),
                     '`%s` in %s can evaluate to %s: the character is converted to a digit value without having been tested to lie in '
                     '%r..%r on every path' % (fn.expr(n['id']), fn.q, _fmt_iv(v), chr(c), chr(c + hi)),
@@ -437,7 +508,7 @@ def rule_index(R, fns, cache):
                 continue
             size = int(m.group(1))
             v = res.obs.get(n['args'][0])
-            key = _k('%s#%s' % (fn.q, fn.expr(n['id'])))
+            key = _k('%s#%s[]' % (fn.q, n.get('rclsT', 'std::array').replace('const ', '')))
             R.check(v is not None and U.inside(v, (0, size - 1)), 'T1-array-index-in-range', key, fn.loc(n['id']),
                     'subscript of %s in %s can be %s, outside 0..%d' % (n.get('rclsT'), fn.q, _fmt_iv(v), size - 1),
                     'index in %s' % _fmt_iv(v))
@@ -541,6 +612,38 @@ def rule_strto(R, fns):
             if not value_conv:
                 run_mode('S3-strto-no-digits-rejected', 'converts nothing (returns 0 with end == input)',
                          lambda pre, st: [({endkey: pre.get(srckey, (-128, 127))}, (0, 0))], 'no-digits')
+            if rt[0] == 0:
+                # S5: strtoul / strtoull accept a leading '-' and negate in the unsigned type ("-18446744073709551615" -> 1):
+                # assume the input starts with '-' from the entry of the function on (both spellings `*p` / `p[0]`)
+                a0 = _arg_text(fn, args[0])
+                seeds = {('e', '*' + a0): (45, 45), ('e', a0 + '[0]'): (45, 45)}
+                state = {'hit': False, 'lost': False}
+
+                def minus_hook(it, st, vals, n, seeds=seeds, state=state):
+                    pre = dict(st)
+                    it.eval(n['id'], st, vals)
+                    state['hit'] = True
+                    if not all(pre.get(k) == (45, 45) for k in seeds):
+                        state['lost'] = True      # the first character is no longer tracked at the call
+                    s2 = dict(st)
+                    s2[('x', 'after')] = (1, 1)
+                    s2[endkey] = (0, 0)
+                    return [(s2, rt)]             # any (wrapped) value, input fully consumed
+                it5 = U.Interp(fn, hooks={call['id']: minus_hook}, init=dict(seeds))
+                it5.run()
+                key5 = _k('%s#%s:leading-minus' % (fn.q, name))
+                if it5.res.truncated or state['lost']:
+                    R.broken('S5: cannot follow the first input character of %s up to the %s call' % (fn.q, name))
+                elif not state['hit']:
+                    R.ok('S5-strtoul-minus-rejected', key5, site, 'the call is unreachable when %s is \'-\'' % ('*' + a0))
+                else:
+                    bad, _rej = _outcome(fn, it5)
+                    R.check(bad is None, 'S5-strtoul-minus-rejected', key5, site,
+                            '%s in %s is reached with an input that starts with \'-\': %s negates in the unsigned type and the wrapped '
+                            'value reaches `%s`, e.g. "-18446744073709551615" is returned as 1 (an upper bound does not exclude wrapped values)'
+                            % (name, fn.q, name, fn.expr(bad) if bad in fn.nodes else 'end of function'),
+                            'every path after the call rejects')
+            if not value_conv:
                 gs = guards(fn, call['id'])
                 want = srckey[1]
                 ok = False
@@ -552,6 +655,109 @@ def rule_strto(R, fns):
                 R.check(ok, 'S4-strto-leading-space-rejected', _k('%s#%s:leading-space' % (fn.q, name)), site,
                         '%s in %s is not guarded by !isspace(%s): %s skips leading white space, so " 1" would be accepted'
                         % (name, fn.q, want, name), 'the call is dominated by the false edge of isspace(%s)' % want)
+
+
+# ------------------------------------------------------------------------------------------------ A2
+
+def _conjuncts(fn, nid):
+    n = fn.nodes.get(fn.strip(nid))
+    if n is not None and n.get('k') == 'binop' and n.get('op') == '&&':
+        return _conjuncts(fn, n['lhs']) + _conjuncts(fn, n['rhs'])
+    return [nid]
+
+
+def _loop_cond(fn, L):
+    for b in fn.blocks.values():
+        t = b.get('term')
+        if isinstance(t, int) and t in fn.nodes:
+            tn = fn.nodes[t]
+            if tn.get('k') == 'stmt' and tn.get('o') == L['b'] and tn.get('cls') == L['cls'] and isinstance(b.get('cond'), int):
+                return b['cond']
+    return None
+
+
+def rule_scale_down(R, fns, cache):
+    """A loop that divides an accumulator by a constant once per step of a counter (`for (; c < 0 && x > 0; ++c) x /= 10`)
+    computes x / k^|c|: whenever it is left, either the counter's own condition is exhausted or x is 0 (further divisions
+    would not change it).  Leaving earlier hands an under-divided value to what follows ("5e-9" -> rounds to 1)."""
+    for fn in fns:
+        if not fn.loops:
+            continue
+        shell = cache.shell(fn)
+        ups = accumulator_updates(fn, shell)
+        roles = update_roles(fn, ups)
+        sites = []
+        for (a, x, L, _mult, _spine, form) in ups:
+            if not form.startswith('x/') or a['id'] not in roles:
+                continue
+            k = form[2:]
+            if not k.isdigit() or int(k) < 2:
+                continue
+            # counters of this loop: integer locals stepped by a constant inside it (any spelling of the step)
+            cs = set()
+            for m in fn.all_nodes():
+                lv = None
+                if m.get('k') == 'unop' and m.get('op') in ('++', '--'):
+                    lv = m['sub']
+                elif m.get('k') == 'assign' and m is not a:
+                    lv = m['lhs']
+                if lv is None or not fn.in_range(m['id'], L['b'], L['e']):
+                    continue
+                d = _int_local(fn, shell, lv)
+                if d is not None and d in shell.counters and d != x:
+                    cs.add(d)
+            if not cs:
+                continue           # digit extraction (`do { v /= 10; } while (v != 0)`): nothing counts the divisions
+            cond = _loop_cond(fn, L)
+            mine = []
+            for c in (_conjuncts(fn, cond) if cond is not None else []):
+                ds = {fn.nodes[y]['d'] for y in fn.subtree(c) if fn.nodes[y].get('k') == 'var' and fn.nodes[y].get('vk') in ('local', 'param')}
+                if ds and ds <= cs:
+                    mine.append(c)
+            sites.append((a, x, L, (mine, cs, roles[a['id']])))
+        for (a, x, L, mine) in sites:
+            def inside(b, seen=None):
+                blk = fn.blocks[b]
+                if blk['elems']:
+                    return any(fn.in_range(e, L['b'], L['e']) for e in blk['elems'])
+                seen = seen or set()
+                if b in seen:
+                    return False
+                seen.add(b)
+                ss = fn.succs(b)
+                return len(ss) == 1 and inside(ss[0], seen)     # empty loop-back / join block
+            exits = []
+
+            def probe(b, succ, st):
+                if inside(b) and not inside(succ):
+                    exits.append(dict(st))
+            it = U.Interp(fn, edge_probe=probe)
+            it.run()
+            mine, cs, role = mine
+            key = _k('%s#%s' % (fn.q, role))
+            if it.res.truncated:
+                R.broken('A2: interpretation of %s truncated' % fn.q)
+                continue
+            if not exits:
+                continue
+            badst = None
+            for st in exits:
+                xv = st.get(('v', x))
+                # the counter is exhausted: its own part of the loop condition cannot hold any more, or (loop forms that
+                # leave by `break`) every counter of the loop is known exactly
+                done = (bool(mine) and all(not it.refine(c, True, st, {}, U._Everything()) for c in mine)) \
+                    or all((st.get(('v', c)) or (0, 1))[0] == (st.get(('v', c)) or (0, 1))[1] for c in cs)
+                if not (done or xv == (0, 0)):
+                    badst = (st, xv)
+                    break
+            if badst is None:
+                R.ok('A2-scale-down-complete', key, fn.loc(a['id']), '%d exit states: counter exhausted or value 0' % len(exits))
+            else:
+                st, xv = badst
+                R.bad('A2-scale-down-complete', key, fn.loc(a['id']),
+                      'the dividing loop around `%s` in %s can be left while its counter condition `%s` still holds and the value is %s '
+                      '(not 0): the value is divided fewer times than the counter demands and what follows (rounding) sees a digit that '
+                      'should have been shifted out' % (fn.expr(a['id']), fn.q, ' && '.join(fn.expr(c) for c in mine) or 'counter not yet at its final value', _fmt_iv(xv)))
 
 
 # ------------------------------------------------------------------------------------------------ L1
@@ -590,6 +796,7 @@ def all_rules(fb, R, fns=None):
     cache = Cache()
     parsers = parser_functions(fns)
     rule_accum(R, fns, cache)
+    rule_scale_down(R, fns, cache)
     rule_neg(R, fns, cache)
     rule_narrow(R, fns, cache, parsers)
     rule_digit(R, fns, cache)
@@ -626,6 +833,8 @@ def run(ctx):
     R.expect('S2-strto-trailing-rejected', 3)
     R.expect('S3-strto-no-digits-rejected', 2)       # the two throwing wrappers
     R.expect('S4-strto-leading-space-rejected', 2)
+    R.expect('S5-strtoul-minus-rejected', 1)         # string_to_ulong (the only strtoul site)
+    R.expect('A2-scale-down-complete', 1)            # the negative-exponent loop of the coordinate parser
     R.expect('L1-coordinate-fully-consumed', 2)      # set_lon, set_lat (const char*)
     R.expect('N1-negation-excludes-minimum', 2)      # coordinate formatter, opl_parse_int (+1: output_int, finding)
     R.expect('C1-narrowing-in-range', 6)      # coordinate parser, string_to_ulong, str_to_int x3, opl_parse_int<uint32> (+1: Timestamp(const char*), finding)
@@ -671,11 +880,11 @@ def _selftest_once(fb, R):
             for i in mine:
                 if not i.ok:
                     wrong.append('%s reported by %s' % (nm, i.rule))
-    if wrong or R.broken_msgs or len(names) < 25:
+    if wrong or R.broken_msgs or len(names) < 29:
         raise AnalysisBroken('IVAL self-test: unexpected verdicts on selftest/positive/c13_text.cpp: %s %s' % (wrong, R.broken_msgs))
 
 
 SELFTESTS = [(r, 'c13_text.cpp', _selftest) for r in (
     'A1-accum-bounded', 'S1-strto-range-rejected', 'S2-strto-trailing-rejected', 'S3-strto-no-digits-rejected',
-    'S4-strto-leading-space-rejected', 'L1-coordinate-fully-consumed', 'N1-negation-excludes-minimum', 'C1-narrowing-in-range',
+    'S4-strto-leading-space-rejected', 'S5-strtoul-minus-rejected', 'A2-scale-down-complete', 'L1-coordinate-fully-consumed', 'N1-negation-excludes-minimum', 'C1-narrowing-in-range',
     'D1-digit-validated', 'T1-array-index-in-range')]
